@@ -372,6 +372,48 @@ fn cmd_gen(args: &[String]) -> i32 {
             put(1, &s);
             continue;
         }
+        if i % 40 == 17 {
+            // size classes of the wire format: the literal buffer, the token and error arrays,
+            // integers, offsets and line numbers on both sides of 2^4, 2^5, 2^7, 2^8, 2^16 (and 2^32
+            // for integer payloads) — every length/width prefix of the serialised tuple
+            let s = match r.below(7) {
+                0 => {
+                    let l = r.pick(&[30usize, 31, 32, 33, 255, 256, 257, 258, 300, 513, 1000, 65_535, 65_536, 65_537, 70_000]);
+                    let q = r.pick(&["'", "\""]);
+                    format!("x = {q}a{q}{q}{}{q};\ny = 'it''s';\n", "b".repeat(l - 2))
+                }
+                1 => {
+                    // many short escaped literals adding up
+                    let k = r.pick(&[10usize, 64, 85, 86, 100, 22_000]);
+                    "t 'a''b';".repeat(k)
+                }
+                2 => {
+                    let k = r.pick(&[6usize, 7, 8, 9, 15, 16, 32_766, 32_767, 32_768, 32_769]);
+                    "a;".repeat(k)
+                }
+                3 => {
+                    let k = r.pick(&[14usize, 15, 16, 17, 65_535, 65_536, 65_537]);
+                    "1e;".repeat(k)
+                }
+                4 => {
+                    let v = r.pick(&[
+                        "127", "128", "255", "256", "32767", "32768", "65535", "65536", "2147483647", "2147483648", "4294967295", "4294967296", "9223372036854775807",
+                        "9223372036854775808", "18446744073709551615", "0ffx", "0ffffx", "0ffffffffx", "0ffffffffffffffffx",
+                    ]);
+                    format!("a = {v}; %let b = %eval({v} + 1);")
+                }
+                5 => {
+                    let k = r.pick(&[126usize, 127, 128, 254, 255, 256, 65_534, 65_535, 65_536, 70_000]);
+                    format!("{}x = 'q''r';\n y;", "\n".repeat(k))
+                }
+                _ => {
+                    let k = r.pick(&[126usize, 127, 128, 254, 255, 256, 65_534, 65_535, 65_536, 70_000]);
+                    format!("{} = 'q''r'; é\ny;", "x".repeat(k))
+                }
+            };
+            put(1, &s);
+            continue;
+        }
         if i % 40 == 27 {
             let levels = r.pick(&[8usize, 33, 65, 130]);
             put(1, &gen::grammar::gen_deep_program(&mut r, tier.gcfg(), levels).s);
